@@ -535,9 +535,15 @@ class RealizeMemrefCasts(RewritePattern):
             else:
                 is_input = True
             if is_input:
-                # insert copy op
+                # insert copy op. The data must arrive before the first use of any kind,
+                # otherwise it overwrites what an earlier use wrote to the allocated memref
+                first_use_op = next(x for x in op.parent.walk() if x in uses)
+                while first_use_op.parent is not op.parent:
+                    # don't copy inside of a nested region, it may not be executed at all
+                    first_use_op = first_use_op.parent_op()
+                    assert first_use_op is not None
                 copy_op = memref.CopyOp(source_op.source, op.dest)
-                rewriter.insert_op(copy_op, InsertPoint.before(use_op))
+                rewriter.insert_op(copy_op, InsertPoint.before(first_use_op))
                 break
 
         # insert "copy from" for last use as output
@@ -558,6 +564,10 @@ class RealizeMemrefCasts(RewritePattern):
                 is_output = True
             if is_output:
                 # insert copy op
+                while use_op.parent is not op.parent:
+                    # don't copy inside of a nested region, it may not be executed at all
+                    use_op = use_op.parent_op()
+                    assert use_op is not None
                 copy_op = memref.CopyOp(op.dest, source_op.source)
                 rewriter.insert_op(copy_op, InsertPoint.after(use_op))
                 break
